@@ -88,11 +88,14 @@ func run(c *hlib.Ctx) {
 	runPolys(c, n)
 	runAngles(c, n)
 	runBezier(c, n)
+	runBezOps(c, n)
 	runSegCurve(c, n)
+	runSegRepeated(c, n)
 	runJoined(c, n)
 	runSearch(c, n)
 	runGSS(c, n)
 	runBisect(c, n)
+	runCurveGlue(c, n)
 	runResiduals(c, n)
 	runRealRoots(c, n)
 	runLength(c, n)
@@ -103,6 +106,7 @@ func run(c *hlib.Ctx) {
 	runEig2(c, n)
 	runVecs(c, n)
 	runPolysF(c, n)
+	runBicg(c, n)
 }
 
 func emit(c *hlib.Ctx, m mode, kind string, args string, impl func() string) {
